@@ -428,7 +428,7 @@ def impl_cfg(rule, order, tier):
             "  MaxAtoms = %d\n  MaxDepth = %d\n  MaxMap = %d\n  MaxDel = %d\nINVARIANT Refines\nINVARIANT WellFormed\nCHECK_DEADLOCK FALSE\n"
             % (rule, order, '{"F2p", "F4p", "F3r", "F4b", "F3a", "E"}' if big else '{"F2p", "F4p", "F3r", "F4b"}',
                '{"F1p", "F2p", "F3p", "F3q", "F2b", "F4b"}' if big else '{"F1p", "F3p", "F3q", "F2b"}',
-               10 if big else 8, 3 if big else 2, 2 if big else 1, 3 if big else 2))
+               9 if big else 8, 3 if big else 2, 1, 2))
 
 
 def design_level(out, prop, tier):
